@@ -32,7 +32,7 @@ CHECKS = {
    note="Process crashes only (no torn writes, no power loss - excluded by the property). Enumeration is complete per explored operation, not over all operations/stacks.",
    technique="runtime monitoring with fault injection: crash enumeration at every hooked filesystem operation along observed executions, oracle = fresh open vs. commit history"),
  "C08": dict(level="exploration", design="5/C08", engine="engineA",
-   text="Same engine; M-lock ledger (path -> creator, inode) updated at every create/remove/rename of a *.lock path: a create while a live holder exists, a removal/rename by a non-creator or of a different inode are violations; at every commit the new tables.list bytes must equal what the committer wrote through its own lock-file descriptor. Workload: contention triples on the re-lock, overlapping compactions, crash of a lock holder followed by other writers, random 3-4 writer schedules.",
+   text="Same engine; M-lock ledger (path -> creator, inode) updated at every create/remove/rename of a *.lock path: a create while a live holder exists, a removal/rename by a non-creator or of a different inode are violations; at every commit the new tables.list bytes must equal what the committer wrote through its own lock-file descriptor. Workload: contention triples on the re-lock, overlapping compactions, crash of a lock holder followed by other writers, random 3-4 writer schedules. I/O-fault-inside-window sweeps: a process takes an injected error at each of its operations on lock files and at its renames while another process is parked before each of its operations in turn (so the error paths run while the other one holds tables.list.lock or table locks).",
    note="Same engine assumptions as C04. Does not require that compaction uses per-table locks at all, only observable exclusivity and ownership.",
    technique="runtime monitoring: ownership ledger on hooked lock-file operations under seeded schedules"),
  "C10": dict(level="exploration", design="5/C10", engine="engineA",
@@ -76,7 +76,7 @@ CHECKS = {
    note="Trusts my reading of the format (DESIGN.md appendix A) and the Go standard library zlib/crc32.",
    technique="runtime monitoring: independent format decoder as oracle over files emitted by executions of the real writer/stack"),
  "C01": dict(level="exploration", design="5/C01",
-   text="Generated tables (all Config values x limits x record shapes, deterministic from VERIF_SEED) are written by the real Writer and scanned by the real Reader; the oracle is the generator's own record list after the documented normalisation only. Held = every generated table of this run read back exactly.",
+   text="Generated tables (all Config values x limits x record shapes, deterministic from VERIF_SEED) are written by the real Writer and scanned by the real Reader; the oracle is the generator's own record list after the documented normalisation only. Held = every generated table of this run read back exactly. Also (one table in eight): the same table written through an io.Writer whose k-th Write fails, once or from then on, for every k: some AddRef/AddLog/Close call must report the error and the writer must not panic - a table counts as produced without error only if every Write succeeded.",
    note="Trusts the harness's generator/normaliser (gen/) and Go's compress/zlib. Inputs rejected by the writer are counted out-of-domain, not held.",
    technique="runtime monitoring: reference-model oracle (generator's record list) over executions of the real writer+reader on generated inputs"),
  "C02": dict(level="exploration", design="5/C02",
